@@ -97,7 +97,7 @@ def _key_for(x: dict) -> str:
     return f"{b}:{vr}" + (":reorder" if c["reorder"] else "") + (":dark-atoms" if c["spe"] else "") + (":initial-state" if c["given"] else "")
 
 
-def _judge(ctx: Ctx, results: list[dict], preds: dict[str, dict], stratum: str) -> dict:
+def _judge(ctx: Ctx, results: list[dict], preds: dict[str, dict] | None, stratum: str) -> dict:
     stats = {"runs": 0, "violations": 0, "worst_margin_tight": 0.0, "worst_margin_loose": 0.0, "min_bits_p": 1.0, "drift": 0, "ref_runs": 0}
     for x in results:
         c, rec, o = x["case"], x["rec"], x["obs"]
@@ -132,7 +132,7 @@ def _judge(ctx: Ctx, results: list[dict], preds: dict[str, dict], stratum: str) 
         elif x["verdict_full"] != "ok":
             ctx.model_drift(f"{c['id']}: site-level labels incoherent ({x['verdict_full']}, drive {rec.get('site_drive')}, interaction {rec.get('site_imat')}) but every reported value is right")
         # mechanism model vs real code (R2): what was used at the sites, outcome class, verdict class
-        if not c.get("is_ref") and len(c["rho"]) == n:
+        if preds is not None and not c.get("is_ref") and len(c["rho"]) == n:
             p = preds.get(Q.scen_key(Q.scen_of(c)))
             if p is None:
                 raise MachineryError(f"no TLC prediction for scenario {Q.scen_of(c)}")
@@ -324,6 +324,11 @@ def run(ctx: Ctx) -> None:
     ctx.level = "model_checking"
     workers = int(os.environ.get("VERIF_TLC_WORKERS", "16"))
     rng = random.Random(ctx.seed * 1000003 + 303)
+    if ctx.replay:                                   # ./check C03 --replay <file>: re-run that one scenario
+        case = json.loads(open(ctx.replay).read())["replay"]["case"]
+        ctx.coverage["rule"] = "replay of one recorded scenario"
+        ctx.log(f"replay: {_judge(ctx, Q.replay_cases(ctx, [case], policy='same-site-order', name='replayfile', alpha=1e-15), None, 'replay-file')}")
+        return
     ctx.assumptions += [
         "QubitOrderFn.tla transcribes the index-space changes of MPSBackendImpl / SVBackendImpl; which revision (Variant) the tree follows is observed from hook values, and every replayed run is compared with the model's prediction (differences => model_drift, not a violation)",
         "tight oracle: a run with the register inserted directly in the required site order and reordering off is the same computation (same chain, same Hamiltonian); loose oracle: dense numpy/scipy reference on Pulser's own samples; TDVP's projection error is not controlled by `precision`, hence the loose budget",
